@@ -14,9 +14,17 @@ import (
 	"sync/atomic"
 	"testing"
 
+	"io"
+	"net/textproto"
+	"unicode/utf8"
+
+	"github.com/robfig/gettext/po"
+	"github.com/robfig/soy/ast"
 	"github.com/robfig/soy/data"
 	"github.com/robfig/soy/soyhtml"
 	"github.com/robfig/soy/soyjs"
+	"github.com/robfig/soy/soymsg"
+	"github.com/robfig/soy/soymsg/pomsg"
 	"pgregory.net/rapid"
 
 	"verif/harness/gen"
@@ -131,6 +139,49 @@ const c09Builtins = `
 {template .zzDeep}{if $n > 0}{$n % 10}{call .zzDeep}{param n: $n - 1 /}{/call}{/if}{/template}
 `
 
+// memOpener hands pomsg.Load its catalogues from memory.
+type memOpener map[string]string
+
+func (m memOpener) Open(locale string) (io.ReadCloser, error) {
+	if s, ok := m[locale]; ok {
+		return io.NopCloser(strings.NewReader(s)), nil
+	}
+	return nil, nil
+}
+
+// c09Provider loads a French catalogue with a (marked) identity translation of every message of the
+// bundle that has no plural.
+func c09Provider(cb *compiled) soymsg.Provider {
+	var file po.File
+	file.Header = textproto.MIMEHeader{}
+	file.Header.Set("Language", "fr")
+	file.Header.Set("Plural-Forms", "nplurals=2; plural=(n > 1);")
+	file.Header.Set("Content-Type", "text/plain; charset=UTF-8")
+	seen := map[uint64]bool{}
+	for _, t := range cb.reg.Templates {
+		collectMsgs(t.Node, func(m *ast.MsgNode) {
+			for _, ch := range m.Body.Children() {
+				if _, isPl := ch.(*ast.MsgPluralNode); isPl {
+					return
+				}
+			}
+			ps := soymsg.PlaceholderString(m)
+			if m.ID == 0 || seen[m.ID] || ps == "" || !utf8.ValidString(ps) {
+				return
+			}
+			seen[m.ID] = true
+			file.Messages = append(file.Messages, po.Message{Comment: po.Comment{References: []string{fmt.Sprintf("id=%d", m.ID)}}, Id: ps, Str: []string{"«" + ps + "»"}})
+		})
+	}
+	var buf bytes.Buffer
+	file.WriteTo(&buf)
+	prov, err := pomsg.Load(memOpener{"fr": buf.String()}, []string{"fr"})
+	if err != nil {
+		return nil // (the catalogue does not load: C11's matter)
+	}
+	return prov
+}
+
 func runC09(c C09Case, rounds int, rec *recorder) error {
 	names, srcs := gen.Sources(&c.Prog.Prog)
 	if len(srcs) > 0 {
@@ -169,6 +220,24 @@ func runC09(c C09Case, rounds int, rec *recorder) error {
 	onames, osrcs := gen.Sources(&c.Other.Prog)
 	ij := toDataMap(c.Prog.IJ)
 	msgs := identityBundle(cb)
+	// (half of the cases take their catalogue from a provider of PO files, which every goroutine asks for
+	// the bundle of its own request's locale: regional locales that all fall back to the one catalogue)
+	var prov soymsg.Provider
+	var provN int32
+	if hashCase(c)%2 == 0 {
+		prov = c09Provider(cb)
+	}
+	regions := []string{"CA", "BE", "CH", "LU", "MC", "SN", "CI", "ML", "CM", "MG", "HT", "DZ", "MA", "TN", "BF", "NE", "TD", "GN", "RW", "BI", "BJ", "TG", "CF", "CG", "GA", "DJ", "KM", "VU", "SC", "MU"}
+	pickBundle := func() soymsg.Bundle {
+		if prov == nil {
+			return msgs
+		}
+		n := int(atomic.AddInt32(&provN, 1))
+		if n%5 == 0 {
+			return prov.Bundle("fr")
+		}
+		return prov.Bundle("fr_" + regions[n%len(regions)])
+	}
 	render := func(tg *c09Target) (string, bool) {
 		var buf bytes.Buffer
 		rd := cb.tofu.NewRenderer(tg.fq)
@@ -176,7 +245,7 @@ func runC09(c C09Case, rounds int, rec *recorder) error {
 			rd.Inject(ij)
 		}
 		if tg.msgs {
-			rd.WithMessages(msgs)
+			rd.WithMessages(pickBundle())
 		}
 		err := rd.Execute(&buf, tg.d)
 		return buf.String(), err != nil
@@ -231,6 +300,9 @@ func runC09(c C09Case, rounds int, rec *recorder) error {
 		}
 		cb = fresh
 		msgs = identityBundle(cb)
+		if prov != nil {
+			prov = c09Provider(cb) // (a provider nobody has asked anything yet)
+		}
 		var (
 			wg      sync.WaitGroup
 			start   = make(chan struct{})
